@@ -475,6 +475,90 @@ func c13GoIntegerKinds(c *Ctx) {
 			vals = append(vals, int8(x))
 		}
 	}
+	// and back: every boundary integer into every Go integer kind is either stored exactly or refused
+	lits := []string{"0", "1", "-1", "-3", "127", "128", "-128", "-129", "255", "256", "32767", "32768", "-32768", "-32769", "65535", "65536", "2147483647", "2147483648", "-2147483648", "-2147483649",
+		"4294967295", "4294967296", "9223372036854775807", "9223372036854775808", "-9223372036854775808", "-9223372036854775809", "18446744073709551615", "18446744073709551616", "-18446744073709551615", "-18446744073709551616"}
+	targets := []reflect.Type{reflect.TypeOf(int(0)), reflect.TypeOf(int8(0)), reflect.TypeOf(int16(0)), reflect.TypeOf(int32(0)), reflect.TypeOf(int64(0)), reflect.TypeOf(uint(0)), reflect.TypeOf(uint8(0)),
+		reflect.TypeOf(uint16(0)), reflect.TypeOf(uint32(0)), reflect.TypeOf(uint64(0)), reflect.TypeOf(uintptr(0)), reflect.TypeOf(namedUint(0)), reflect.TypeOf(namedInt64(0))}
+	for _, lit := range lits {
+		n, _ := new(big.Int).SetString(lit, 10)
+		for _, t := range targets {
+			for _, bin := range []bool{false, true} {
+				data := []byte(lit)
+				if bin {
+					enc, err := refbin.Encode([]*model.Value{model.IntV(n)}, nil)
+					if err != nil {
+						continue
+					}
+					data = enc.Bytes
+				}
+				c.Eval(1)
+				c.NonTrivial(fmt.Sprintf("gokind-un|%s|%v|%v", lit, t, bin))
+				for shape := 0; shape < 2; shape++ {
+					target := reflect.New(t)
+					doc := data
+					if shape == 1 { // as a list element into a slice of the kind
+						target = reflect.New(reflect.SliceOf(t))
+						if bin {
+							enc, err := refbin.Encode([]*model.Value{model.ListV(model.Int64V(1), model.IntV(n), model.Int64V(2))}, nil)
+							if err != nil {
+								continue
+							}
+							doc = enc.Bytes
+						} else {
+							doc = []byte("[1, " + lit + ", 2]")
+						}
+					}
+					verdict := func() (verdict string) {
+						defer func() {
+							if rec := recover(); rec != nil {
+								verdict = "panic: " + ionx.PanicSite(rec)
+							}
+						}()
+						err := ion.Unmarshal(doc, target.Interface())
+						fits := false
+						bits := t.Bits()
+						switch t.Kind() {
+						case reflect.Int, reflect.Int8, reflect.Int16, reflect.Int32, reflect.Int64:
+							fits = fitsInt(n, bits)
+						default:
+							fits = fitsUint(n, bits)
+						}
+						if err != nil {
+							if fits {
+								return "refused although the number fits: " + err.Error()
+							}
+							return ""
+						}
+						got := target.Elem()
+						if shape == 1 {
+							if got.Len() != 3 {
+								return fmt.Sprintf("slice of %d elements", got.Len())
+							}
+							got = got.Index(1)
+						}
+						var g *big.Int
+						switch t.Kind() {
+						case reflect.Int, reflect.Int8, reflect.Int16, reflect.Int32, reflect.Int64:
+							g = big.NewInt(got.Int())
+						default:
+							g = new(big.Int).SetUint64(got.Uint())
+						}
+						if !fits {
+							return fmt.Sprintf("no error although the number does not fit; stored %v", g)
+						}
+						if g.Cmp(n) != 0 {
+							return fmt.Sprintf("stored %v", g)
+						}
+						return ""
+					}()
+					if verdict != "" {
+						numViolate(c, "go-integer-kinds", fmt.Sprintf("Unmarshal(%s) into %v (shape %d, binary %v)", lit, t, shape, bin), doc, lit, verdict)
+					}
+				}
+			}
+		}
+	}
 	for i, v := range vals {
 		rv := reflect.ValueOf(v)
 		want, ok := imageOf(rv, "", true)
